@@ -181,7 +181,9 @@ func (w *bsWorld) newBlock(height int, prev bitcoin.Hash32, heavy bool) *bsBlock
 	h := &wire.BlockHeader{Version: 1, PrevBlock: prev, Timestamp: uint32(1600000000 + id), Bits: bits, Nonce: uint32(id),
 		MerkleRoot: *tx.TxHash()}
 	b := &bsBlock{id: id, height: height, header: h, hash: *h.BlockHash(), tx: tx}
+	w.mu.Lock() // downloads of earlier blocks read byHash meanwhile
 	w.byHash[b.hash] = b
+	w.mu.Unlock()
 	return b
 }
 
